@@ -26,8 +26,13 @@ selection fix):
   ascending by value; `xnp.eig`, `arnoldi_eigs` unspecified); `ordering`: the order the rule presents to
   `get_slice` — ascending by MAGNITUDE for every rule that sorts.
 * LAPACK (`eigh`, `eig`) and the Krylov routines (`lanczos_eigs` — property C14, `arnoldi_eigs` — C15)
-  are PARAMETERS: a computed `Spectrum` (values and vectors in computed order) enters `selectPath`;
-  their contracts are hypotheses of the theorems.
+  are PARAMETERS: a computed `Spectrum` (values and vectors in computed order) enters `selectPath`.
+  The contract of LAPACK is the structure `DenseContract` (`Lemmas/EigDense.lean`: `A P = P diag Λ`, non-zero
+  columns) — hypothesis of `C10_dense_eig` / `C10_dense_eigh`; the Krylov routines are the loop models of C14 / C15
+  (`Lanczos.lanczosExact` + `lanczosEigs`, `Arnoldi.runE` + `eigsMatrix`), composed in `Lemmas/EigKrylov.lean`.
+* `LOBPCG` rule: `lobpcg(A, max_iters)` computes only the `min(n - 1, max_iters)` algebraically LARGEST eigenpairs
+  (`lobpcgComputed`), `select_by_magnitude` then selects among those (`lobpcgRule`): the algebraically smallest
+  eigenvalue can never be returned (finding `lobpcg-drops-smallest`; `C10_lobpcg_partial`, `C10_lobpcg_clause_needed`).
 * `Identity`: ones and the identity matrix, sliced.  `Diagonal`: `argsort(abs(A.diag))`, permuted identity
   columns.  `Triangular`: `argsort(abs(diag(A)))`; data whose strictly upper part vanishes (whatever
   `A.lower` says) is reversed in rows and columns (`J L J` is upper triangular), solved, and reversed back;
@@ -172,9 +177,30 @@ def selectPath {R κ : Type} (le : κ → κ → Bool) (key : R → κ) (k : Nat
   let sel := getSlice k w (sortByKey le (fun p : R × List R => key p.1) (s.vals.zip s.vecs))
   { vals := sel.map (·.1), vecs := sel.map (·.2) }
 
+/-- the same selection on (value, vector) pairs whose vectors live in any type `V` (the Krylov rules return
+the columns of the LAZY product `Q @ Y`: vectors of the operator's space); `selectPath` is this function on the
+zipped spectrum (`Lemmas/EigKrylov.lean: selectPath_eq_selectPairs`, by `rfl`) -/
+def selectPairs {R V κ : Type} (le : κ → κ → Bool) (key : R → κ) (k : Nat) (w : Which) (pairs : List (R × V)) :
+    List (R × V) :=
+  getSlice k w (sortByKey le (fun p : R × V => key p.1) pairs)
+
 /-- the positions `select_by_magnitude` returns for a computed spectrum with the magnitude keys `keys` -/
 def selectPos {κ : Type} [Inhabited κ] (le : κ → κ → Bool) (keys : List κ) (k : Nat) (w : Which) : List Nat :=
   getSlice k w (sortByKey le (fun i => keys.getD i default) (List.range keys.length))
+
+/-- `lobpcg(A, max_iters)` (`cola/linalg/eig/lobpcg.py`): scipy's `lobpcg(…, largest=True)` is started with a
+block of `min(n - 1, max_iters)` columns, so only that many ALGEBRAICALLY largest eigenpairs are computed (returned
+ascending by value).  `s`: the full spectrum of the operator listed ascending by value (the contract of the
+routine); the result: its last `min(n - 1, max_iters)` entries.  The algebraically smallest eigenpair is NEVER
+computed (recorded finding `lobpcg-drops-smallest`). -/
+def lobpcgComputed {R : Type} (maxIters : Nat) (s : Spectrum R) : Spectrum R :=
+  let m := min (s.vals.length - 1) maxIters
+  { vals := s.vals.drop (s.vals.length - m), vecs := s.vecs.drop (s.vecs.length - m) }
+
+/-- `eig(A, k, which, LOBPCG(max_iters))`: `select_by_magnitude` among what `lobpcg` computed -/
+def lobpcgRule {R κ : Type} (le : κ → κ → Bool) (key : R → κ) (k : Nat) (w : Which) (maxIters : Nat)
+    (s : Spectrum R) : Spectrum R :=
+  selectPath le key k w (lobpcgComputed maxIters s)
 
 /-- `eigmax` / `eigmin`: `es[0]` of `eig(A, k=1, which='LM' / 'SM')` -/
 def firstVal {R : Type} (s : Spectrum R) : Option R := s.vals.head?
